@@ -22,7 +22,7 @@ theorem cur_snd_cur (s : St) : (cur s).2.l.cur = (cur s).1 := by
 theorem setFound_eq' {X : St} (h : X.found = true) : { X with found := true } = X := by
   cases X; simp only at *; simp [h]
 
-theorem cur_snd_loaded (s : St) : (cur s).2.l.loaded = true := by
+theorem cur_snd_loaded_d2 (s : St) : (cur s).2.l.loaded = true := by
   cases h : s.l.loaded
   · cases h2 : s.l.unread with
     | nil => rw [cur_nil h h2]; rfl
@@ -65,7 +65,7 @@ theorem skipSpaces_settled {cfg} : ∀ F s Y, skipSpaces cfg F s = (.ok, Y) → 
             · cases h
         · rename_i hc
           cases h
-          refine ⟨cur_snd_loaded s, rfl, ?_, ?_, ?_⟩
+          refine ⟨cur_snd_loaded_d2 s, rfl, ?_, ?_, ?_⟩
           · show ((cur s).2.l.cur == 0) = false
             rw [cur_snd_cur]; simpa using h0
           · show isWs (cur s).2.l.cur = false
@@ -362,7 +362,7 @@ theorem delim_after {cfg : Cfg} {F : Nat} {s' s'' : St} (h : skipSpaces cfg (F +
     simp only [skipSpaces, e0, e1, e2, Bool.and_false, Bool.false_eq_true, ↓reduceIte] at h
     cases h
     have hl : cur ({ (cur s').2 with found := true } : St) = ((cur s').2.l.cur, { (cur s').2 with found := true }) :=
-      cur_loaded (cur_snd_loaded s')
+      cur_loaded (cur_snd_loaded_d2 s')
     rw [hl, cur_snd_cur, hc] at hd
     cases hd
 
@@ -679,13 +679,13 @@ theorem sim_all {cfg : Cfg} : ∀ f, VS cfg f ∧ ES cfg f ∧ MS cfg f := by
 theorem scanNumber_loaded {cfg : Cfg} : ∀ n acc s, (scanNumber cfg n acc s).2.l.loaded = true := by
   intro n
   induction n with
-  | zero => intro acc s; simp only [scanNumber]; exact cur_snd_loaded s
+  | zero => intro acc s; simp only [scanNumber]; exact cur_snd_loaded_d2 s
   | succ n ih =>
     intro acc s
     simp only [scanNumber]
     split
     · exact ih _ _
-    · exact cur_snd_loaded s
+    · exact cur_snd_loaded_d2 s
 
 set_option maxRecDepth 8000 in
 /-- a successful parse that yields a number ends with the look-ahead byte latched -/
